@@ -207,6 +207,334 @@ def inexact_temporal(kind, x):
     return False
 
 
+
+# ---------------------------------------------------------------- containers (signals clause)
+
+def build_schema(sch):
+    import flatland
+    t = sch["s"]
+    if t == "scalar":
+        return S.kind_cls(sch["kind"])
+    if t == "seq":
+        base = flatland.Array if sch.get("as") == "array" else flatland.List
+        return base.of(build_schema(sch["member"]))
+    if t == "dict":
+        fields = [build_schema(f).named(n) for n, f in sch["fields"]]
+        return flatland.Dict.of(*fields).using(policy=sch["policy"])
+    if t == "date":
+        return flatland.DateYYYYMMDD
+    if t == "joined":
+        return flatland.JoinedString.using(separator=sch["sep"], prune_empty=sch["prune"],
+                                           member_schema=S.kind_cls(sch["member"]))
+    raise AssertionError(t)
+
+
+def input_to_py(inp):
+    t = inp["i"]
+    if t == "leaf":
+        return S.nat_to_py(inp["v"])
+    if t == "list":
+        return [input_to_py(x) for x in inp["v"]]
+    return {S.nat_to_py(k): input_to_py(v) for k, v in inp["v"]}
+
+
+def leaf(v):
+    return {"i": "leaf", "v": S.py_to_nat(v)}
+
+
+def children_of(el, sch):
+    t = sch["s"]
+    if t == "seq":
+        return [(m, sch["member"]) for m in el]
+    if t == "dict":
+        return [(el[n], f) for n, f in sch["fields"]]
+    if t == "date":
+        k = {"s": "scalar", "kind": K_int(True)}
+        return [(el["year"], k), (el["month"], k), (el["day"], k)]
+    if t == "joined":
+        k = {"s": "scalar", "kind": sch["member"]}
+        return [(m, k) for m in el]
+    return []
+
+
+def index_tree(el, sch, path, out):
+    out[id(el)] = path
+    for i, (c, cs) in enumerate(children_of(el, sch)):
+        index_tree(c, cs, path + [i], out)
+
+
+def tree_canon(el, sch):
+    t = sch["s"]
+    if t == "scalar":
+        return {"v": S.out_nat(el.value), "u": S.cps(el.u)}
+    kids = children_of(el, sch)
+    if t in ("date", "joined"):
+        return {t: [{"v": S.out_nat(c.value), "u": S.cps(c.u)} for c, _ in kids]}
+    return {t: [tree_canon(c, cs) for c, cs in kids]}
+
+
+def schema_kinds(sch, out):
+    t = sch["s"]
+    if t == "scalar":
+        out.append(sch["kind"])
+    elif t == "seq":
+        schema_kinds(sch["member"], out)
+    elif t == "dict":
+        for _, f in sch["fields"]:
+            schema_kinds(f, out)
+    elif t == "joined":
+        out.append(sch["member"])
+    return out
+
+
+def input_leaves(inp, out):
+    if inp is None:
+        return out
+    t = inp["i"]
+    if t == "leaf":
+        out.append(S.nat_to_py(inp["v"]))
+    elif t == "list":
+        for x in inp["v"]:
+            input_leaves(x, out)
+    else:
+        for k, v in inp["v"]:
+            out.append(S.nat_to_py(k))
+            input_leaves(v, out)
+    return out
+
+
+def tree_conv(sch, inputs):
+    kinds = [k for k in schema_kinds(sch, []) if S.base_kind(k)["k"] in ("float", "decimal")]
+    if not kinds:
+        return []
+    seps = set()
+
+    def collect(s_):
+        if s_["s"] == "joined":
+            seps.add(s_["sep"])
+        elif s_["s"] == "seq":
+            collect(s_["member"])
+        elif s_["s"] == "dict":
+            for _, f in s_["fields"]:
+                collect(f)
+    collect(sch)
+    leaves = []
+    for inp in inputs:
+        input_leaves(inp, leaves)
+    values = []
+    for v in leaves:
+        values.append(v)
+        if isinstance(v, str):
+            values.extend(v)
+            for sep in seps:
+                values.extend(v.split(sep))
+    out, seen = [], set()
+    for k in kinds:
+        for v in values:
+            for e in S.conv_entries(k, v):
+                ident = repr((e["dec"], e["key"]))
+                if ident not in seen:
+                    seen.add(ident)
+                    out.append(e)
+    return out
+
+
+def _pairs_of(inp):
+    """Mirror of the model's toPairs on the JSON input (None = not dict-like)."""
+    if inp["i"] == "dict":
+        return [(S.nat_to_py(k), v) for k, v in inp["v"]]
+    if inp["i"] == "list":
+        out = []
+        for x in inp["v"]:
+            if x["i"] == "list" and len(x["v"]) == 2 and x["v"][0]["i"] == "leaf":
+                out.append((S.nat_to_py(x["v"][0]["v"]), x["v"][1]))
+            elif x["i"] == "dict" and len(x["v"]) == 2:
+                out.append((S.nat_to_py(x["v"][0][0]), {"i": "leaf", "v": x["v"][1][0]}))
+            elif x["i"] == "leaf" and isinstance(S.nat_to_py(x["v"]), str) and len(S.nat_to_py(x["v"])) == 2:
+                t = S.nat_to_py(x["v"])
+                out.append((t[0], leaf(t[1])))
+            elif x["i"] == "list" and len(x["v"]) == 2:
+                return "unmodelled"      # unhashable / structured key
+            else:
+                return None
+        return out
+    if inp["i"] == "leaf" and S.nat_to_py(inp["v"]) == "":
+        return []
+    return None
+
+
+def shape_ok(sch, inp):
+    """Is this (schema, input) inside the container model?  Outside: structured values handed to a
+    scalar (their str() is not modelled), a container child that is set twice (its first members
+    are replaced, so their signals cannot be labelled by position)."""
+    t = sch["s"]
+    if t in ("scalar", "date"):
+        return inp["i"] == "leaf"
+    if t == "joined":
+        if inp["i"] == "list":
+            return all(x["i"] == "leaf" for x in inp["v"])
+        return True
+    if t == "seq":
+        if inp["i"] == "list":
+            return all(shape_ok(sch["member"], x) for x in inp["v"])
+        if inp["i"] == "dict":
+            return all(shape_ok(sch["member"], {"i": "leaf", "v": k}) for k, _ in inp["v"])
+        v = S.nat_to_py(inp["v"])
+        if isinstance(v, str):
+            return all(shape_ok(sch["member"], leaf(c)) for c in v)
+        return True
+    pairs = _pairs_of(inp)
+    if pairs is None:
+        return True
+    if pairs == "unmodelled":
+        return False
+    fields = dict((n, f) for n, f in sch["fields"])
+    seen = set()
+    for k, v in pairs:
+        try:
+            hash(k)
+        except TypeError:
+            return False
+        if isinstance(k, str) and k in fields:
+            if k in seen and fields[k]["s"] not in ("scalar", "date"):
+                return False
+            seen.add(k)
+            if not shape_ok(fields[k], v):
+                return False
+    return True
+
+
+def tree_case(sch, x, pre=None):
+    return {"mode": "tree", "schema": sch, "x": x, "pre": pre, "conv": tree_conv(sch, [x, pre])}
+
+
+def run_tree(case):
+    from flatland.signals import element_set
+    sch = case["schema"]
+    cls = build_schema(sch)
+    el = cls()
+    if case.get("pre") is not None:
+        try:
+            el.set(input_to_py(case["pre"]))
+        except Exception:  # noqa: BLE001
+            el = cls()
+    events = []
+
+    def receiver(sender, adapted=None, **kw):
+        snap = None
+        if sender is el:
+            try:
+                snap = tree_canon(el, sch)
+            except Exception as e:  # noqa: BLE001
+                snap = {"raised": type(e).__name__}
+        events.append((sender, adapted, snap))
+    with element_set.connected_to(receiver):
+        try:
+            flag = el.set(input_to_py(case["x"]))
+            exc = None
+        except Exception as e:  # noqa: BLE001
+            flag, exc = None, type(e).__name__
+    return el, flag, exc, events
+
+
+def tree_obs(case):
+    sch = case["schema"]
+    el, flag, exc, events = run_tree(case)
+    if exc:
+        return {"exc": exc, "flag": None, "sigs": None, "tree": None}
+    paths = {}
+    index_tree(el, sch, [], paths)
+    sigs = [[paths.get(id(sender), ["orphan"]), adapted] for sender, adapted, _ in events]
+    return {"exc": None, "flag": flag, "sigs": sigs, "tree": tree_canon(el, sch)}
+
+
+def has_huge_int(case):
+    vals = []
+    if case["mode"] == "scalar":
+        vals = [S.nat_to_py(case["x"])]
+    else:
+        input_leaves(case["x"], vals)
+        input_leaves(case.get("pre"), vals)
+    for v in vals:
+        if isinstance(v, bool):
+            continue
+        if isinstance(v, int) and abs(v) >= 10 ** S.MAXD:
+            return True
+        if isinstance(v, (float, decimal.Decimal)):
+            try:
+                if abs(int(v)) >= 10 ** S.MAXD:
+                    return True
+            except (ValueError, OverflowError):
+                pass
+    return False
+
+
+# random schemas / inputs
+TREE_KINDS = [K_string(True), K_string(False), K_int(True), K_int(False), {"k": "boolean_default"},
+              {"k": "date", "strip": True}, {"k": "float", "signed": True}, K_enum(K_string(True), ["a", "b"])]
+
+
+def rand_schema(rng, depth, under_seq=False):
+    """JoinedString is not generated below a sequence: Sequence.set swallows the TypeError that
+    JoinedString.set raises on a non-iterable, leaving orphaned senders (outside the model)."""
+    r = rng.random()
+    if under_seq and r >= 0.85:
+        r = rng.random() * 0.85
+    if depth <= 0 or r < 0.3:
+        return {"s": "scalar", "kind": rng.choice(TREE_KINDS)}
+    if r < 0.5:
+        return {"s": "seq", "as": rng.choice(["list", "list", "array"]), "member": rand_schema(rng, depth - 1, True)}
+    if r < 0.75:
+        names = rng.sample(["a", "b", "c", "ab"], rng.randint(1, 3))
+        return {"s": "dict", "policy": rng.choice(["subset", "subset", "duck"]),
+                "fields": [[n, rand_schema(rng, depth - 1, under_seq)] for n in names]}
+    if r < 0.85:
+        return {"s": "date"}
+    return {"s": "joined", "sep": rng.choice([",", ", ", "::", " "]), "prune": rng.random() < 0.6,
+            "member": rng.choice([K_string(True), K_string(False), K_int(True), {"k": "boolean_default"}])}
+
+
+def rand_input(rng, sch, hostile=0.15):
+    t = sch["s"]
+    if rng.random() < hostile:
+        return rng.choice([
+            leaf(None), leaf(5), leaf(""), leaf("ab"), leaf("abc"), leaf(True), {"i": "list", "v": []},
+            {"i": "dict", "v": []}, {"i": "list", "v": [leaf("ab"), leaf("cd")]}, leaf(S.Other("obj", True)),
+            {"i": "list", "v": [leaf(1), leaf("x")]}, {"i": "dict", "v": [[S.py_to_nat("a"), leaf("1")], [S.py_to_nat("zz"), leaf(2)]]},
+            {"i": "list", "v": [{"i": "list", "v": [leaf("a"), leaf("1")]}, {"i": "list", "v": [leaf("a"), leaf("x")]}]},
+            {"i": "dict", "v": [[S.py_to_nat(1), leaf("1")]]},
+        ]) if t != "scalar" and t != "date" else leaf(S.random_native(rng))
+    if t == "scalar":
+        return leaf(appropriate_input(rng, sch["kind"]) if rng.random() < 0.7 else S.random_native(rng))
+    if t == "seq":
+        return {"i": "list", "v": [rand_input(rng, sch["member"], hostile) for _ in range(rng.choice([0, 1, 2, 2, 3]))]}
+    if t == "dict":
+        items = []
+        for n, f in sch["fields"]:
+            if rng.random() < 0.85:
+                items.append((n, rand_input(rng, f, hostile)))
+        if rng.random() < 0.12:
+            items.append((rng.choice(["zz", "q"]), leaf("extra")))
+        rng.shuffle(items)
+        if rng.random() < 0.25:   # pair list, possibly with a duplicated key
+            if items and rng.random() < 0.5:
+                n, f = rng.choice(sch["fields"])
+                items.append((n, rand_input(rng, f, hostile)))
+            return {"i": "list", "v": [{"i": "list", "v": [leaf(k), v]} for k, v in items]}
+        return {"i": "dict", "v": [[S.py_to_nat(k), v] for k, v in dict(items).items()]}
+    if t == "date":
+        return leaf(appropriate_input(rng, {"k": "date", "strip": True}) if rng.random() < 0.8 else S.random_native(rng))
+    # joined
+    sep = sch["sep"]
+    parts = [rng.choice(["a", "b", "", " ", "1", "22", " x ", "on", sep, "a" + sep]) for _ in range(rng.choice([0, 1, 2, 3, 4]))]
+    r = rng.random()
+    if r < 0.6:
+        return leaf(sep.join(parts))
+    if r < 0.9:
+        return {"i": "list", "v": [leaf(rng.choice([p, p, None, 0, 5, False])) for p in parts]}
+    return leaf(rng.choice([None, 7, S.Other("x", True)]))
+
+
 class C04(Property):
     id = "C04"
     title = "set() reports one coherent outcome: return, value, u and signal agree"
@@ -294,6 +622,13 @@ class C04(Property):
 
     def generate(self, rng, n, tier):
         for _ in range(n):
+            if rng.random() < 0.3:
+                sch = rand_schema(rng, rng.choice([1, 2, 2, 3]))
+                if sch["s"] == "scalar":
+                    sch = {"s": "seq", "as": "list", "member": sch}
+                pre = rand_input(rng, sch) if rng.random() < 0.3 else None
+                yield tree_case(sch, rand_input(rng, sch), pre)
+                continue
             kind = rng.choice(KINDS)
             if rng.random() < 0.6:
                 x = appropriate_input(rng, kind)
@@ -303,7 +638,14 @@ class C04(Property):
 
     # ------------------------------------------------------------ implementation runner
 
+    def has_model(self, case):
+        if case["mode"] != "tree":
+            return True
+        return shape_ok(case["schema"], case["x"]) and (case.get("pre") is None or shape_ok(case["schema"], case["pre"]))
+
     def run_impl(self, case):
+        if case["mode"] == "tree":
+            return tree_obs(case)
         cls = S.kind_cls(case["kind"])
         x = S.nat_to_py(case["x"])
         el = cls()
@@ -326,6 +668,8 @@ class C04(Property):
 
     def oracle(self, case):
         from flatland.exc import AdaptationError
+        if case["mode"] == "tree":
+            return self.tree_oracle(case)
         fails = []
         kind = case["kind"]
         cls = S.kind_cls(kind)
@@ -379,13 +723,44 @@ class C04(Property):
                     fails.append({"clause": "reset-value", "expected": _show(el.value), "observed": _show(el2.value)})
         return fails
 
+    def tree_oracle(self, case):
+        fails = []
+        sch = case["schema"]
+        el, flag, exc, events = run_tree(case)
+        if exc:
+            # containers may refuse input by design (KeyError from the Dict policy, TypeError from
+            # JoinedString on a non-iterable); anything else is a scalar's set() raising
+            if exc not in ("KeyError", "TypeError"):
+                fails.append({"clause": "set-raises", "expected": None, "observed": exc})
+            return fails
+        paths = {}
+        index_tree(el, sch, [], paths)
+        own = [i for i, e in enumerate(events) if e[0] is el]
+        if len(own) != 1 or own[0] != len(events) - 1:
+            fails.append({"clause": "signal-exactly-once-last", "expected": "one signal for the element, after its children's",
+                          "observed": [paths.get(id(e[0]), ["orphan"]) for e in events]})
+            return fails
+        _, adapted, snap = events[-1]
+        if adapted is not flag:
+            fails.append({"clause": "signal-adapted-is-flag", "expected": flag, "observed": adapted})
+        final = tree_canon(el, sch)
+        if snap != final:
+            fails.append({"clause": "signal-after-final", "expected": final, "observed": snap})
+        if not isinstance(flag, bool):
+            fails.append({"clause": "flag-is-bool", "expected": "bool", "observed": repr(flag)})
+        direct = [e[1] for e in events[:-1] if len(paths.get(id(e[0]), ["orphan", "x"])) == 1]
+        if sch["s"] in ("seq", "dict", "joined") and direct and flag is not all(direct):
+            fails.append({"clause": "flag-is-conjunction-of-children", "expected": all(direct), "observed": flag})
+        return fails
+
     def classify(self, case, failure):
+        clause = failure.get("clause")
+        if clause == "set-raises" and failure.get("observed") == "ValueError" and has_huge_int(case):
+            return "KF-C04-a"
+        if case["mode"] == "tree":
+            return None
         kind = case["kind"]
         x = S.nat_to_py(case["x"])
-        clause = failure.get("clause")
-        if clause == "set-raises" and failure.get("observed") == "ValueError":
-            if isinstance(x, int) and not isinstance(x, bool) and abs(x) >= 10 ** S.MAXD:
-                return "KF-C04-a"
         if clause == "reset-value" and inexact_temporal(kind, x):
             return "KF-C04-b"
         if clause in ("reset-u", "reset-value") and bool_incoherent(kind):
@@ -395,10 +770,21 @@ class C04(Property):
     # ------------------------------------------------------------ coverage, shrinking
 
     def nontrivial(self, case, obs):
+        if case["mode"] == "tree":
+            return obs["exc"] is None and len(obs["sigs"]) > 1
         s = obs["set"]
         return s["exc"] is None and case["x"] is not None
 
     def tags(self, case, obs):
+        if case["mode"] == "tree":
+            t = ["tree-root=" + case["schema"]["s"]]
+            if obs["exc"]:
+                t.append("tree-exc=" + obs["exc"])
+            else:
+                t += ["tree-flag=%s" % obs["flag"], "tree-signals=%d" % min(len(obs["sigs"]), 12)]
+            if case.get("pre") is not None:
+                t.append("tree-preset")
+            return t
         s = obs["set"]
         x = case["x"]
         t = ["kind=" + kind_tag(case["kind"]), "input=" + ("none" if x is None else x["t"])]
@@ -423,6 +809,9 @@ class C04(Property):
         return t
 
     def shrink_candidates(self, case):
+        if case["mode"] == "tree":
+            yield from self.tree_shrinks(case)
+            return
         x = case["x"]
         kind = case["kind"]
         if x is not None and x["t"] == "str":
@@ -444,6 +833,29 @@ class C04(Property):
                     k2 = copy.deepcopy(kind)
                     del k2[key][i]
                     yield scalar_case(k2, S.nat_to_py(x))
+
+
+def _tree_shrinks(self, case):
+    sch, x, pre = case["schema"], case["x"], case.get("pre")
+    if pre is not None:
+        yield tree_case(sch, x, None)
+    if sch["s"] == "seq" and x["i"] == "list" and x["v"] and sch["member"]["s"] not in ("scalar", "date"):
+        yield tree_case(sch["member"], x["v"][0], None)
+    if sch["s"] == "dict":
+        for i, (n, f) in enumerate(sch["fields"]):
+            if len(sch["fields"]) > 1:
+                s2 = dict(sch, fields=[g for j, g in enumerate(sch["fields"]) if j != i])
+                yield tree_case(s2, x, pre)
+    if x["i"] in ("list", "dict"):
+        for i in range(len(x["v"])):
+            yield tree_case(sch, {"i": x["i"], "v": x["v"][:i] + x["v"][i + 1:]}, pre)
+    if x["i"] == "leaf" and x["v"] is not None and x["v"]["t"] == "str":
+        v = x["v"]["v"]
+        for i in range(len(v)):
+            yield tree_case(sch, leaf(v[:i] + v[i + 1:]), pre)
+
+
+C04.tree_shrinks = _tree_shrinks
 
 
 def _same(a, b):
